@@ -41,6 +41,33 @@ struct F3_ : state_machine_def<F3_> {
   template<class F,class Ev> void no_transition(Ev const&,F&,int){}
 };
 typedef BE<F3_> F3;
+// flag carried only by a state several submachine levels down (C17 "looking into active submachines recursively")
+struct Deep {}; struct down {}; struct up {};
+// (not under back11: a three-level hierarchy does not compile there - its UpperFsm parameter is neither consistently the root nor the parent)
+#if !defined(CFG_back11)
+#define SUBLOW(F) BE<F>
+#define SUBMID(F) BE<F>
+struct Low_ : state_machine_def<Low_> {
+  struct Leaf0 : state<> {}; struct Leaf : state<> { typedef mpl::vector<Deep> flag_list; };
+  typedef Leaf0 initial_state;
+  struct transition_table : mpl::vector< Row<Leaf0,down,Leaf>, Row<Leaf,up,Leaf0> > {};
+  template<class F,class Ev> void no_transition(Ev const&,F&,int){}
+};
+typedef SUBLOW(Low_) Low;
+struct Mid_ : state_machine_def<Mid_> {
+  typedef Low initial_state;
+  struct transition_table : mpl::vector<> {};
+  template<class F,class Ev> void no_transition(Ev const&,F&,int){}
+};
+typedef SUBMID(Mid_) Mid;
+struct Top3_ : state_machine_def<Top3_> {
+  struct Out : state<> {};
+  typedef Mid initial_state;
+  struct transition_table : mpl::vector< Row<Mid,kill,Out> > {};
+  template<class F,class Ev> void no_transition(Ev const&,F&,int){}
+};
+typedef BE<Top3_> Top3;
+#endif
 template<class T> bool flag_or_hot(T& m)  { return m.template is_flag_active<Hot>(); }
 #if IS_MP11
 template<class T> bool flag_and_idle(T& m) { return m.template is_flag_active<Idle, msm::backmp11::flag_and>(); }
@@ -73,5 +100,13 @@ int main(int argc, char** argv) {
     bool ok = hot_or == (a || b || c) && idle_and == (!a && !b && !c);
     report("flags.cfg" + std::to_string(cfg) + ".path" + std::to_string(path), ok, "C17,C13", "Hot(OR)=" + std::to_string(hot_or) + " Idle(AND)=" + std::to_string(idle_and));
   }
+#if !defined(CFG_back11)
+  { Top3 m; m.start(); bool f0 = m.template is_flag_active<Deep>();
+    m.process_event(down()); bool f1 = m.template is_flag_active<Deep>();
+    bool mid1 = m.template get_state<Mid&>().template is_flag_active<Deep>();
+    m.process_event(up()); bool f2 = m.template is_flag_active<Deep>();
+    m.process_event(down()); m.process_event(kill()); bool f3 = m.template is_flag_active<Deep>();
+    report("flags.three-levels-down", !f0 && f1 && mid1 && !f2 && !f3, "C17,C13", "before=" + std::to_string(f0) + " leaf-active=" + std::to_string(f1) + " asked-on-mid=" + std::to_string(mid1) + " leaf-left=" + std::to_string(f2) + " submachine-left=" + std::to_string(f3)); }
+#endif
   return finish();
 }
